@@ -106,8 +106,9 @@ package store
 //@ modifies this.linked, this.acct, this.acredit, this.tcredit, this.tdeposit, effects
 
 //@ interface store.AccountStore.IsAccountNode(account, nodeID) (err)
-//@ ensures [authorized] err == nil <==> this.linked[nodeID] && this.acct[nodeID] == account
-//@ ensures [error]      err != nil ==> err == ErrNotAuthorized
+//@ ensures [authorized] err == nil ==> this.linked[nodeID] && this.acct[nodeID] == account
+//@ ensures [refused]    !(this.linked[nodeID] && this.acct[nodeID] == account) ==> err != nil
+//@ ensures [errkind]    plainError(err)
 //@ modifies nothing
 
 //@ interface store.AccountStore.GetAccountNodes(account) (result, err)
